@@ -61,7 +61,7 @@ Parse(cs) ==
     ELSE Ok(Amt(FromDigits(IntDigits(cs) \o Frac8(FracDigits(cs)))))
 
 \* Integer.String: integer part without leading zeros (at least "0"), point, exactly eight places
-Print(x) ==
+PrintA(x) ==
     LET ds == ToDigits(x.m)  n == Len(ds) IN
     IF n > Precision
     THEN CharsOf(SubSeq(ds, 1, n - Precision)) \o << "." >> \o CharsOf(SubSeq(ds, n - Precision + 1, n))
